@@ -533,7 +533,8 @@ class Gen:
     # ---- block bodies: dependency reached through locals, across blocks
     def gen_block(self, ty, depth):
         r = self.r
-        k = r.weighted([(3, "local-obj"), (2, "if-assign"), (2, "switch"), (2, "guard-let"), (1, "same-block"), (1, "const")])
+        k = r.weighted([(3, "local-obj"), (2, "if-assign"), (2, "switch"), (2, "guard-let"), (1, "same-block"), (1, "const"),
+                        (3, "reassign-straight"), (1, "two-locals"), (2, "read-around-branch"), (1, "reassign-named")])
         self.locals_ctr += 1
         v = "v%d" % self.locals_ctr
         if ty in ("pw",):
@@ -553,6 +554,35 @@ class Gen:
             if s:
                 return {"kind": "block", "stmts": [["let", v, a], ["if", self.gen("bool", 1), [["assign", v, b]], None],
                                                    ["return", ["prop", ["local", v], s[1]]]]}
+        comb = {"int": lambda a, b: ["bin", "int", "+", a, b], "string": lambda a, b: ["bin", "string", "+", a, b],
+                "bool": lambda a, b: ["bin", "bool", "^", a, b], "double": lambda a, b: ["bin", "double", "+", a, b],
+                "uint": lambda a, b: ["bin", "uint", "+", a, b]}.get(ty)
+        src0 = [x for x in SRC.get(ty, []) if x[2] == 0]
+        if k in ("reassign-straight", "two-locals", "read-around-branch", "reassign-named") and comb and src0:
+            # one local (or two) holding dynamically obtained pointers, re-assigned in straight-line code or around a
+            # branch between two reads of the same property: every generation of the local needs its own subscription
+            pr = r.choice(src0)[1]
+            a, na = self.obj_widget(1)
+            b, nb = self.obj_widget(1)
+            self.pins |= na | nb | {(self.base_name(a), "peer"), (self.base_name(b), "peer")}
+            pa, pb = ["prop", a, "peer"], ["prop", b, "peer"]
+            self.locals_ctr += 1
+            s1 = "s%d" % self.locals_ctr
+            if k == "reassign-straight":
+                return {"kind": "block", "stmts": [["let", v, pa], ["let", s1, ["prop", ["local", v], pr]], ["assign", v, pb],
+                                                   ["return", comb(["local", s1], ["prop", ["local", v], pr])]]}
+            if k == "two-locals":
+                return {"kind": "block", "stmts": [["let", v, pa], ["let", s1, pb],
+                                                   ["return", comb(["prop", ["local", v], pr], ["prop", ["local", s1], pr])]]}
+            if k == "reassign-named":
+                i, c = r.choice(self.widgets_named())
+                nm = ["obj", i] if c == "SimWidget" else ["upcast", "SimWidget", ["obj", i]]
+                first, second = (nm, pb) if r.chance(0.5) else (pa, nm)
+                return {"kind": "block", "stmts": [["let", v, first], ["let", s1, ["prop", ["local", v], pr]], ["assign", v, second],
+                                                   ["return", comb(["local", s1], ["prop", ["local", v], pr])]]}
+            return {"kind": "block", "stmts": [["let", v, pa], ["let", s1, ["prop", ["local", v], pr]],
+                                               ["if", self.dyn_bool(), [["assign", v, pb]], None],
+                                               ["return", comb(["local", s1], ["prop", ["local", v], pr])]]}
         if k == "guard-let" and SRC.get(ty):
             # let p = X.peer; if (p != null) return p.prop; return k
             base, nb = self.obj_widget(1)
@@ -1003,7 +1033,7 @@ def doc_literals(rng, type_name="Doc"):
     return doc
 
 
-def doc_operators(rng, type_name="Doc"):
+def doc_operators(rng, type_name="Doc", everything=False):
     """operators printed verbatim for whatever operand types the checker admitted"""
     objs = [_obj("w1"), _obj("w2")]
     w2 = ["obj", "w2"]
@@ -1022,16 +1052,66 @@ def doc_operators(rng, type_name="Doc"):
         ("out1", ["un", "-", ["cast", "int", ["prop", w2, "flag"]]], "neg-bool-cast"),
         ("outItems", ["tern", ["prop", w2, "flag"], ["list", "string", []], ["prop", w2, "items"]], "empty-list"),
     ]
-    chosen = rng.sample(pool, rng.randint(2, 5))
+    chosen = rng.sample(pool, len(pool) if everything else rng.randint(2, 5))
     tags = []
     for tgt, e, tag in chosen:
-        if any(b["target"] == tgt for b in objs[0]["bindings"]):
-            continue
-        objs[0]["bindings"].append(_b(tgt, e))
+        owner = objs[0]
+        if any(b["target"] == tgt for b in owner["bindings"]):
+            owner = objs[1]
+            if not everything or any(b["target"] == tgt for b in owner["bindings"]):
+                continue
+        owner["bindings"].append(_b(tgt, e))
         tags.append(tag)
-    if rng.chance(0.5):
+    if everything or rng.chance(0.5):
         objs[1]["handlers"].append({"signal": "fired", "sigkey": "fired()", "on": "onFired", "params": [], "form": "block", "argtypes": [],
                                     "body": {"kind": "block", "stmts": [["log", "info", [["max", ["prop", ["obj", "w1"], "intVal"], ["lit", "int", 2]]], "info"]]}})
     doc = _mk_doc(type_name, "QWidget", objs)
     doc["operator_tags"] = tags
+    return doc
+
+
+def doc_facilities(rng, type_name="Doc"):
+    """each facility that needs an #include (std::max/min -> <algorithm>, std::fmod -> <cmath>, qDebug -> <QtDebug>)
+    is used in exactly one kind of position: a top-level binding, a gadget member, a handler, or not at all"""
+    objs = [_obj("w1"), _obj("w2"), _obj("w3", "SimPanel")]
+    w2 = ["obj", "w2"]
+    pos = {f: rng.choice(["top", "gadget", "handler", "absent", "gadget"]) for f in ("minmax", "fmod", "log")}
+    if all(p == "absent" for p in pos.values()):
+        pos["minmax"] = "gadget"
+    mm = [rng.choice(["max", "min"]), ["prop", w2, "intVal"], ["lit", "int", 7]]
+    fm = ["bin", "double", "%", ["prop", w2, "realVal"], ["lit", "double", 2.0]]
+    lg = ["log", rng.choice(["debug", "info", "warning", "critical"]), [["lit", "string", "fac"], ["prop", w2, "intVal"]]]
+    lg.append({"debug": "debug", "info": "info", "warning": "warning", "critical": "critical"}[lg[1]])
+    o = objs[0]
+    gadget_used = False
+    hstmts = []
+    if pos["minmax"] == "top":
+        o["bindings"].append(_b("out1", mm))
+    elif pos["minmax"] == "gadget":
+        o["bindings"].append(_b("font", ["bin", "int", "+", mm, ["lit", "int", 40]], sub="pointSize"))
+        gadget_used = True
+    elif pos["minmax"] == "handler":
+        hstmts.append(["setprop", ["obj", "w3"], "intVal", mm])
+    if pos["fmod"] == "top":
+        o["bindings"].append(_b("outReal", fm))
+    elif pos["fmod"] == "gadget":
+        o["bindings"].append(_b("font", ["bin", "double", ">=", fm, ["lit", "double", 1.0]], sub="bold"))
+        gadget_used = True
+    elif pos["fmod"] == "handler":
+        hstmts.append(["setprop", ["obj", "w3"], "realVal", fm])
+    if pos["log"] == "top":
+        o["bindings"].append(_b("outFlag", {"kind": "block", "stmts": [lg, ["return", ["bin", "int", ">", ["prop", w2, "intVal"], ["lit", "int", 3]]]]}))
+    elif pos["log"] == "gadget":
+        o["bindings"].append(_b("font", {"kind": "block", "stmts": [lg, ["return", ["bin", "int", ">", ["prop", w2, "intVal"], ["lit", "int", 3]]]]}, sub="italic"))
+        gadget_used = True
+    elif pos["log"] == "handler":
+        hstmts.append(lg)
+    if hstmts:
+        objs[1]["handlers"].append({"signal": "fired", "sigkey": "fired()", "on": "onFired", "params": [], "form": "block", "argtypes": [],
+                                    "body": {"kind": "block", "stmts": hstmts}})
+    if not gadget_used and rng.chance(0.5):
+        o["bindings"].append(_b("font", ["prop", w2, "text"], sub="family"))
+    objs[2]["bindings"].append(_b("outLevel", ["bin", "int", "+", ["this_prop", "level"], ["prop", w2, "intVal"]]))
+    doc = _mk_doc(type_name, "QWidget", objs)
+    doc["facility_positions"] = pos
     return doc
